@@ -444,6 +444,16 @@ impl TransformerContext {
         self.prev_element = Some(el.clone());
     }
 
+    /// Withdraw the provisional registration of an element which could not be
+    /// resolved (yet): positional references to it must wait for it - rather than
+    /// use a half-defined element - while it stays available as a `reuse` target.
+    pub fn forget_element(&mut self, el: &SvgElement) {
+        if let Some(id) = el.get_attr("id") {
+            let id = eval_attr(&id, self).unwrap_or(id);
+            self.elem_map.remove(&id);
+        }
+    }
+
     pub fn update_element(&mut self, el: &SvgElement) {
         if let Some(id) = el.get_attr("id") {
             let id = eval_attr(&id, self).unwrap_or(id);
